@@ -5,7 +5,8 @@
    Vocabulary (coq/Html): [node] DOM; [all_elems dom] its elements in document order;
    [referenced c e u] (Spec.v): element e references u through img src/srcset, script src,
    link href, source src/srcset, video/audio src, url() in a style element or a style attribute,
-   its tag is not disabled in c, and the code's NAMED exclusions do not apply;
+   its tag is not disabled in c, and the code's NAMED exclusions do not apply (what is left of
+   them after the repairs: the style-attribute "not a URL" filter and the "#wp-" filter);
    [html_assets], [html_outlinks], [post_assets], [post_outlinks], [requested] (Html.v): the
    transcription of HTMLAssets, HTMLOutlinks, postprocessItem and the next pass;
    [resolve] (Ref.v): RFC 3986 section 5.2.2.  Third-party code enters as the quantified
@@ -27,16 +28,18 @@ Theorem C07_standard_attrs_extracted :
 Proof. exact standard_attrs_extracted_lemma. Qed.
 Print Assumptions C07_standard_attrs_extracted.
 
-(* The srcset splitter returns every candidate URL of a well-formed value (URLs without comma
-   and white space, descriptor introduced by the space character). *)
+(* The srcset splitter returns every candidate URL of a well-formed value, as HTML reads it:
+   URLs without ASCII white space that neither start nor end with a comma (commas inside are
+   fine), descriptors introduced by any ASCII white space, a comma right after a URL followed by
+   white space. *)
 Theorem C07_srcset_split_complete : forall (cs : list scand) (c : scand),
-  Forall (fun x => wf_cand x = true) cs -> In c cs ->
+  wf_cands cs = true -> In c cs ->
   In (sc_url c) (srcset_urls (render_srcset cs)).
 Proof. exact srcset_split_complete_lemma. Qed.
 Print Assumptions C07_srcset_split_complete.
 
 (* The scanner of style elements returns the URL of every url(...) token of a well-formed style
-   text, as written, unless the "//" / "#wp-" heuristics apply to it. *)
+   text, as written (quotes inside and double slashes included), unless it starts with "#wp-". *)
 Theorem C07_css_urls_complete : forall (d : list ctok * bytes) (t : ctok),
   wf_css d = true -> In t (fst d) -> css_kept (ct_url t) = true ->
   In (ct_url t) (css_urls (render_css d)).
@@ -119,14 +122,31 @@ Theorem C07_guard_as_found_refuted :
 Proof. exact outlinks_without_assets_refuted. Qed.
 Print Assumptions C07_guard_as_found_refuted.
 
-(* The named exclusions are real (each is a known finding): a comma inside a srcset URL, a tab
-   before the descriptor, a percent escape in a style attribute, "//" in a style element. *)
+(* The named exclusion that is left is real (a known finding): a percent escape in a style
+   attribute. *)
 Theorem C07_exclusions_are_real :
-  (exists cs c, In c cs /\ ~ In (sc_url c) (srcset_urls (render_srcset cs)))
-  /\ (exists d t, wf_sty d = true /\ In t (fst d) /\ ~ In (st_body t) (style_attr_urls (render_sty d)))
-  /\ css_urls (bs "a{background:url(//cdn.example.net/x.png)}") = [bs "http://cdn.example.net/x.png"]
-  /\ css_urls (bs "a{background:url(/x//y.png)}") = [bs "/xhttp://y.png"].
-Proof.
-  exact (conj srcset_comma_refuted (conj style_attr_percent_refuted css_slashslash_refuted)).
-Qed.
+  exists d t, wf_sty d = true /\ In t (fst d) /\ ~ In (st_body t) (style_attr_urls (render_sty d)).
+Proof. exact style_attr_percent_refuted. Qed.
 Print Assumptions C07_exclusions_are_real.
+
+(* The code as found (before the repairs C07-srcset-whitespace, C07-srcset-comma,
+   C07-css-url-quotes, C07-css-url-slashslash) lost well-formed references that the repaired
+   code returns: a comma inside a srcset URL, a tab before the descriptor, "//" and quotes
+   inside url(...) of a style element. *)
+Theorem C07_scanners_as_found_refuted :
+  (exists cs c, wf_cands cs = true /\ In c cs
+                /\ ~ In (sc_url c) (srcset_urls_orig (render_srcset cs))
+                /\ In (sc_url c) (srcset_urls (render_srcset cs)))
+  /\ (exists cs c, wf_cands cs = true /\ In c cs
+                   /\ ~ In (sc_url c) (srcset_urls_orig (render_srcset cs))
+                   /\ In (sc_url c) (srcset_urls (render_srcset cs)))
+  /\ css_urls_orig (bs "a{background:url(//cdn.example.net/x.png)}") = [bs "http://cdn.example.net/x.png"]
+  /\ css_urls_orig (bs "a{background:url(/x//y.png)}") = [bs "/xhttp://y.png"]
+  /\ css_urls_orig (bs "a{background:url(""/img/o'brien.png"")}") = [bs "/img/obrien.png"]
+  /\ css_urls (bs "a{background:url(//cdn.example.net/x.png)}") = [bs "//cdn.example.net/x.png"]
+  /\ css_urls (bs "a{background:url(/x//y.png)}") = [bs "/x//y.png"]
+  /\ css_urls (bs "a{background:url( ""/img/o'brien.png"" )}") = [bs "/img/o'brien.png"].
+Proof.
+  exact (conj srcset_comma_orig_refuted (conj srcset_tab_orig_refuted css_rewrite_orig_refuted)).
+Qed.
+Print Assumptions C07_scanners_as_found_refuted.
